@@ -259,3 +259,78 @@ func c05SynthesisedThis(p *Prog) *RuleResult {
 	}
 	return r
 }
+
+// C05/R4 cannot-throw table.
+//
+// When an async function is lowered, its parameter list stays on the outer (synchronous) wrapper
+// only if binding the parameters cannot throw; otherwise the list moves onto the inner generator so
+// that the error rejects the returned promise, as it does natively, instead of escaping from the
+// call. The licence is couldPotentiallyThrow(defaultValue). Its behaviour is a finite table over
+// node kinds (E-ENUM, lenient): it may answer "cannot throw" (false, or anything but the constant
+// true) only for kinds whose evaluation never throws and never runs user code: the primitive
+// literals and function/arrow expressions. In particular an identifier can throw (temporal dead
+// zone — also of a later parameter —, unbound name), a template literal calls toString, a property
+// access calls getters.
+var c05CannotThrowKinds = map[string]bool{"ENull": true, "EUndefined": true, "EBoolean": true, "ENumber": true, "EBigInt": true, "EString": true, "EFunction": true, "EArrow": true}
+
+func c05CannotThrow(p *Prog) *RuleResult {
+	r := NewRule("C05/R4 cannot-throw-table", "couldPotentiallyThrow answers 'cannot throw' only for primitive literals and function/arrow expressions (the kinds whose evaluation can neither throw nor run user code)")
+	var fn *ssa.Function
+	for _, f := range p.ModuleFuncs() {
+		if pkgPathOf(f) == modPath+"/internal/js_parser" && f.Parent() == nil && f.Name() == "couldPotentiallyThrow" {
+			fn = f
+		}
+	}
+	if !r.Anchor("js_parser couldPotentiallyThrow", fn != nil) {
+		return r
+	}
+	cfg := &enumCfg{recursive: map[string]bool{}, inlined: map[string]func() []enumOutcome{}, lenient: true, opConsts: map[int64]string{}, opField: "Op"}
+	outs, problems := enumEvaluate(p, fn, cfg)
+	for _, pr := range problems {
+		r.Instances++
+		r.Fail("undecidable: "+pr, "", "couldPotentiallyThrow is no longer a finite table over node kinds at "+pr)
+	}
+	byKind := map[string]string{}
+	pos := map[string]token.Pos{}
+	for _, o := range outs {
+		if len(o.results) != 1 {
+			continue
+		}
+		k := o.kind
+		if k == "" {
+			k = "(any other kind)"
+		}
+		res := o.results[0]
+		verdict := "could throw"
+		if !res.known {
+			verdict = "depends on run-time data (" + strings.Join(o.labels, ",") + ")"
+		} else if res.val == 0 {
+			verdict = "cannot throw"
+		}
+		if prev, ok := byKind[k]; !ok || prev == "could throw" {
+			byKind[k] = verdict
+			pos[k] = o.pos
+		}
+	}
+	var kinds []string
+	for k := range byKind {
+		kinds = append(kinds, k)
+	}
+	sort.Strings(kinds)
+	safe := 0
+	for _, k := range kinds {
+		r.Instances++
+		v := byKind[k]
+		switch {
+		case v == "could throw":
+			r.OK("couldPotentiallyThrow "+k, false, "")
+		case c05CannotThrowKinds[k]:
+			safe++
+			r.OK("couldPotentiallyThrow "+k, true, "answers "+v+"; evaluating this kind never throws")
+		default:
+			r.Fail("couldPotentiallyThrow "+k, p.Pos(pos[k]), "answers '"+v+"' for "+k+", whose evaluation can throw or run user code (for an identifier: temporal dead zone of a later parameter or of the parameter itself, or an unbound name): a lowered async function then throws synchronously where the native one returns a rejected promise")
+		}
+	}
+	r.Anchor("kinds for which couldPotentiallyThrow answers 'cannot throw'", safe >= 4)
+	return r
+}
